@@ -151,7 +151,9 @@ class Driver(object):
             return []
         data = "".join(json.dumps(r, ensure_ascii=True) + "\n" for r in reqs)
         p = subprocess.run([DRIVER], input=data, capture_output=True, text=True, timeout=timeout)
-        lines = p.stdout.splitlines()
+        lines = p.stdout.split("\n")          # never str.splitlines(): it also breaks at \x85, \x0c, \u2028 ...
+        if lines and lines[-1] == "":
+            lines.pop()
         if p.returncode != 0 or len(lines) != len(reqs):
             raise Infra("driver failed rc=%s got %d/%d lines: %s" % (p.returncode, len(lines), len(reqs), p.stderr[-500:]))
         return [json.loads(l) for l in lines]
